@@ -224,6 +224,54 @@ def s_logic_chain(rng, nval):
     return _mk(prog, "logic_chain_" + mode, rng, nval, edges=edges, style={"andor_words": True})
 
 
+def s_logic_nearbool(rng, nval):
+    """&& / || / ! over operands that look like booleans to an optimiser but are not: `cond : k`, products and
+    projections of them, integer constants, negations - named or inline."""
+    types = gen.Types(rng)
+    k = rng.randint(2, 3)
+    prog = []
+    for i in range(k):
+        prog.append(["input", "i%d" % i, types.fresh(), rng.randint(-3, 12)])
+
+    def cmp_():
+        return ["c", rng.choice(CMP_OPS), ["v", "i%d" % rng.randrange(k)], ["n", rng.randint(-3, 12)]]
+
+    def near(depth=0):
+        form = rng.choice(["sel_k", "sel_k", "sel_v", "cmp", "not", "prod", "proj", "int", "var"])
+        if form == "sel_k":
+            return ["s", cmp_(), ["n", rng.choice([-1, 2, 5, -7, 0, 1, 100])]]
+        if form == "sel_v":
+            return ["s", cmp_(), ["v", "i%d" % rng.randrange(k)]]
+        if form == "cmp":
+            return cmp_()
+        if form == "not" and depth < 2:
+            return ["!", near(depth + 1)]
+        if form == "prod" and depth < 2:
+            return ["b", "*", near(depth + 1), near(depth + 1)]
+        if form == "proj" and depth < 2:
+            return ["p", near(depth + 1), types.fresh()]
+        if form == "int":
+            return ["n", rng.choice([0, 1, 2, -1])]
+        return ["v", "i%d" % rng.randrange(k)]
+
+    named = []
+    for j in range(rng.randint(0, 2)):
+        nm = "n%d" % j
+        prog.append(["sig", nm, ["p", near(), types.fresh()]])
+        named.append(nm)
+    for j in range(rng.randint(1, 3)):
+        a = ["v", rng.choice(named)] if named and rng.random() < 0.5 else near()
+        b = ["v", rng.choice(named)] if named and rng.random() < 0.3 else near()
+        e = [rng.choice(["&&", "||"]), a, b]
+        if rng.random() < 0.3:
+            e = [rng.choice(["&&", "||"]), e, near()]
+        if rng.random() < 0.2:
+            e = ["!", e]
+        prog.append(["sig", "x%d" % j, ["p", e, types.fresh()]])
+    edges = {"i%d" % i: list(range(-4, 14)) for i in range(k)}
+    return _mk(prog, "logic_near_boolean", rng, nval, edges=edges)
+
+
 def s_unary(rng, nval):
     types = gen.Types(rng)
     prog = [["input", "a", types.fresh(), gen.rand_value(rng, True)], ["input", "b", types.fresh(), gen.rand_value(rng, True)]]
@@ -300,7 +348,7 @@ def s_literal_left(rng, nval):
 
 STRATA = [
     (s_op_single, 6), (s_prec_pairs, 6), (s_power_chain, 1), (s_dag_distinct, 8), (s_dag_same, 2),
-    (s_two_producers, 3), (s_self_both, 1), (s_wire_merge, 2), (s_wire_merge_repeat, 1), (s_logic_chain, 4), (s_unary, 1),
+    (s_two_producers, 3), (s_self_both, 1), (s_wire_merge, 2), (s_wire_merge_repeat, 1), (s_logic_chain, 4), (s_logic_nearbool, 3), (s_unary, 1),
     (s_proj, 2), (s_sel, 3), (s_const_heavy, 2), (s_untyped, 1), (s_literal_left, 1),
 ]
 
